@@ -24,6 +24,7 @@ Canonical form: time ranks + one bit per store "value equals the from-scratch
 value for the current sources" (see DESIGN.md 3.E2 for the soundness argument).
 """
 import datetime as dt
+import os
 import itertools
 
 T0 = dt.datetime(2001, 1, 1)
@@ -396,17 +397,55 @@ class World:
                 if capture is not None:
                     capture.append((p.copy(), o))
                 return p, o
-        try:
-            r = self.uberjob.run(
-                self.plan, registry=self.registry, output=outarg, fresh_time=self.fresh_dt(fresh),
-                max_workers=W, max_errors=max_errors, progress=None, scheduler=scheduler, dry_run=dry_run,
-                transform_physical=tp,
-            )
-            return ("ret", r)
-        except BaseException as e:  # noqa
-            return ("exc", e)
-        finally:
+        box = []
+
+        def target():
+            try:
+                r = self.uberjob.run(
+                    self.plan, registry=self.registry, output=outarg, fresh_time=self.fresh_dt(fresh),
+                    max_workers=W, max_errors=max_errors, progress=None, scheduler=scheduler, dry_run=dry_run,
+                    transform_physical=tp,
+                )
+                box.append(("ret", r))
+            except BaseException as e:  # noqa
+                box.append(("exc", e))
+
+        # watchdog: a run that never returns (e.g. a worker thread killed by a non-Exception failure while the
+        # caller waits for the queue) must become a counterexample, not a hung check
+        if RUN_TIMEOUT <= 0:  # watchdog disabled (timing experiments)
+            target()
             self.fault = None
+            return box[0]
+        import threading as _th
+        if _th.excepthook is not _quiet_excepthook:
+            _quiet_excepthook.prev = _th.excepthook
+            _th.excepthook = _quiet_excepthook
+        t = _th.Thread(target=target, daemon=True)
+        t.start()
+        global _hang_seen
+        t.join(RUN_TIMEOUT if not _hang_seen else min(2.0, RUN_TIMEOUT))
+        if not box:
+            _hang_seen = True
+            self.hung = True
+            self.fault = None
+            return ("exc", RunHung(f"uberjob.run did not return within {RUN_TIMEOUT} s"))
+        self.fault = None
+        return box[0]
+
+
+class RunHung(Exception):
+    pass
+
+
+def _quiet_excepthook(args):
+    """An injected Death escaping a worker thread is reported by the oracles (the run hangs or misbehaves), not on stderr."""
+    if args.exc_type is not None and args.exc_type.__name__ == "Death":
+        return
+    _quiet_excepthook.prev(args)
+
+
+RUN_TIMEOUT = float(os.environ.get("VERIF_RUN_TIMEOUT", "30"))
+_hang_seen = False  # once a run has hung in this process, later hangs are only waited for briefly
 
 
 # --------------------------------------------------------------------------
@@ -732,6 +771,8 @@ def step(spec, state, ev, anc, norm, do_dry=False, order="topo"):
         with scripted(pops) as sc:
             r = w.run(out=out, fresh=fr, scheduler=None if pops is None else "random")
         runs = 1
+        if getattr(w, "hung", False):
+            return None, [("HANG", f"run {ev!r} never returned: {r[1]}")], {"runs": 1, "skipped": True}
         msgs, ood, exp, failed = check_run(spec, snap, versions, w, r, out, fr, anc, norm)
         post = (dict(w.snap), versions, w.clock)
         if not failed and pops is None:
@@ -753,6 +794,8 @@ def step(spec, state, ev, anc, norm, do_dry=False, order="topo"):
         with scripted(pops) as sc:
             rf = wf.run(out=out, fresh=fr, fault=(k, fkind), max_errors=me, scheduler=None if pops is None else "random")
         msgs = []
+        if getattr(wf, "hung", False):
+            return None, [("HANG", f"run with a failure injected ({ev!r}) never returned: {rf[1]}")], {"runs": 1, "skipped": True}
         if not wf.raised:
             return None, [], {"runs": 1, "skipped": True}
         if rf[0] == "ret":
@@ -772,6 +815,9 @@ def pop_orders(spec, state, out, fr, anc, norm, order, cap=4000):
         pre = stack.pop()
         post, msgs, info = step(spec, state, ("RUN", out, fr, pre), anc, norm, order=order)
         n += 1
+        if post is None:
+            yield pre, None, msgs, {"runs": 1, "hung": True}
+            return
         tr = info["trace"]
         for pos in range(len(pre), len(tr)):
             for alt in range(1, tr[pos][0]):
@@ -806,9 +852,13 @@ def explore(spec, opts=None, norm=False):
     fail_combos = opts.get("fail_combos", "all")
     res.pop_orders = 0
 
+    res.hung = False
+
     def viol(msgs, hist):
         for t, m in msgs:
             res.violations.append((t, m, hist))
+            if t == "HANG":
+                res.hung = True  # every further run from here may cost a watchdog timeout: stop exploring this plan
 
     res.quotient_pairs = 0
     res.quotient_mismatch = []
@@ -844,26 +894,33 @@ def explore(spec, opts=None, norm=False):
     def failruns(hist, state, out, fr, nops, pops=None):
         for k in range(1, nops + 1):
             for fkind, me in (("exc", 0), ("exc", None), ("death", 0)):
+                if res.hung:
+                    return
                 fev = ["FAILRUN", out, fr, k, fkind, me] + ([pops] if pops is not None else [])
                 postf, msgsf, inf = step(spec, state, fev, anc, norm, order=order)
                 res.runs += inf["runs"]
                 if postf is None:
+                    viol(msgsf, hist + [fev])  # (only a run that never returned has messages here)
                     continue  # the k-th operation did not happen under this error policy
                 res.kinds["FAILRUN"] = res.kinds.get("FAILRUN", 0) + 1
                 hf = hist + [fev]
                 viol(msgsf, hf)
                 visit(postf, hf)
 
-    while frontier:
+    while frontier and not res.hung:
         c = frontier.pop(0)
         hist, state = seen[c]
         snap = state[0]
         for ev in events_for(spec, snap, opts):
+            if res.hung:
+                break
             res.kinds[ev[0]] = res.kinds.get(ev[0], 0) + 1
             h2 = hist + [list(ev)]
             post, msgs, info = step(spec, state, ev, anc, norm, do_dry, order)
             res.runs += info["runs"]
             viol(msgs, h2)
+            if post is None:
+                continue  # the run never returned (reported above)
             visit(post, h2)
             if ev[0] != "RUN":
                 continue
@@ -889,6 +946,8 @@ def explore(spec, opts=None, norm=False):
                     res.runs += infp["runs"]
                     hp = hist + [["RUN", out, fr, pre]]
                     viol(msgsp, hp)
+                    if postp is None:
+                        break  # the run never returned (reported above)
                     visit(postp, hp)
                     if do_fail:
                         failruns(hist, state, out, fr, infp["nops"], pops=pre)
